@@ -5,7 +5,7 @@
            equals a kernel-free description `code_from_dict`, for every class and input.
    Part 3: inside the domain, `code_from_dict` = the reference `keymodel` of the property text.
    Part 4: the statements of the property about `keymodel`.
-   Part 5: the two corners outside the domain are refuted by witnesses. *)
+   Part 5: the corner outside the domain (empty-string alias) is refuted by witnesses. *)
 From Coq Require Import List String Ascii ZArith Bool Lia Btauto.
 From Verif Require Import Regex PyK PyK_alias KeyModel KeyImpl.
 From VerifGen Require Import K4.
@@ -225,16 +225,12 @@ Fixpoint code_fields (c: cls) (d: dict) (fs: list fld) : outcome :=
   end.
 
 Definition code_from_dict (c: cls) (d: dict) : outcome :=
-  match c_fields c with
-  | [] => OInst []
-  | _ :: _ =>
-      if c_forbid c then
-        match filter (fun k => negb (kmem k (code_accepted c))) (keys d) with
-        | (_ :: _) as ks => OExtra ks
-        | [] => code_fields c d (c_fields c)
-        end
-      else code_fields c d (c_fields c)
-  end.
+  if c_forbid c then
+    match filter (fun k => negb (kmem k (code_accepted c))) (keys d) with
+    | (_ :: _) as ks => OExtra ks
+    | [] => code_fields c d (c_fields c)
+    end
+  else code_fields c d (c_fields c).
 
 Lemma impl_filtered_spec : forall c fs,
   impl_filtered c fs = Ok (map (fun f => (f, enc_ostr (alias_of c f))) fs).
@@ -282,13 +278,6 @@ Theorem impl_eq_code : forall c d, impl_from_dict c d = Ok (code_from_dict c d).
 Proof.
   intros c d. unfold impl_from_dict, code_from_dict.
   rewrite impl_filtered_spec. cbn [bind].
-  destruct (c_fields c) as [|f r] eqn:Hf; [reflexivity|].
-  rewrite <- Hf.
-  assert (Hne: exists x y, map (fun f => (f, enc_ostr (alias_of c f))) (c_fields c) = x :: y).
-  { rewrite Hf. cbn. eauto. }
-  destruct Hne as [x [y Hxy]].
-  remember (map (fun f => (f, enc_ostr (alias_of c f))) (c_fields c)) as ff eqn:Hff.
-  rewrite Hxy. rewrite <- Hxy. subst ff.
   destruct (c_forbid c).
   - rewrite enc_filtered_ff, allowed_keys_spec. cbn [bind].
     rewrite impl_forbidden_spec. fold (code_accepted c).
@@ -335,7 +324,7 @@ Lemma code_accepted_members : forall c k, in_domain c = true ->
   kmem k (code_accepted c) = kmem k (accepted c).
 Proof.
   intros c k H. unfold in_domain in H.
-  apply andb_true_iff in H as [H Hd]. apply andb_true_iff in H as [_ Hall].
+  apply andb_true_iff in H as [Hall Hd].
   unfold code_accepted, allowed_spec, accepted.
   rewrite !kmem_app, <- (accepted_members c k _ Hall).
   assert (Hdk: discr_truthy (c_discr c) = discr_keys c).
@@ -351,18 +340,12 @@ Theorem code_eq_keymodel : forall c d, in_domain c = true -> code_from_dict c d 
 Proof.
   intros c d H. unfold code_from_dict, keymodel, extra_keys.
   assert (Hall: forallb (fun f => negb (empty_alias c f)) (c_fields c) = true).
-  { unfold in_domain in H. apply andb_true_iff in H as [H _]. now apply andb_true_iff in H as [_ H]. }
+  { unfold in_domain in H. now apply andb_true_iff in H as [H _]. }
   assert (Hfilt: filter (fun k => negb (kmem k (code_accepted c))) (keys d)
                  = filter (fun k => negb (kmem k (accepted c))) (keys d)).
   { apply filter_ext. intro k. now rewrite code_accepted_members. }
-  destruct (c_fields c) as [|f r] eqn:Hf.
-  - (* no fields: in the domain forbid_extra_keys is off *)
-    unfold in_domain in H. rewrite Hf in H. cbn in H.
-    apply andb_true_iff in H as [H _]. apply andb_true_iff in H as [H _]. apply negb_true_iff in H.
-    rewrite H. cbn [read_fields].
-    destruct (filter (fun k => negb (kmem k (accepted c))) (keys d)); reflexivity.
-  - rewrite <- Hf in Hall |- *. rewrite Hfilt, (code_fields_read_fields _ _ _ Hall).
-    destruct (c_forbid c); destruct (filter (fun k => negb (kmem k (accepted c))) (keys d)); reflexivity.
+  rewrite Hfilt, (code_fields_read_fields _ _ _ Hall).
+  destruct (c_forbid c); destruct (filter (fun k => negb (kmem k (accepted c))) (keys d)); reflexivity.
 Qed.
 
 Theorem impl_eq_keymodel : forall c d, in_domain c = true -> impl_from_dict c d = Ok (keymodel c d).
@@ -375,7 +358,7 @@ Proof.
   intros c f k H Hf Hk.
   rewrite (code_accepted_members _ _ H).
   assert (He: empty_alias c f = false).
-  { unfold in_domain in H. apply andb_true_iff in H as [H _]. apply andb_true_iff in H as [_ H].
+  { unfold in_domain in H. apply andb_true_iff in H as [H _].
     rewrite forallb_forall in H. specialize (H f Hf). now apply negb_true_iff in H. }
   rewrite (code_plan_candidates _ _ He) in Hk.
   apply kmem_In. unfold accepted. apply in_or_app. left. apply in_flat_map. eauto.
@@ -527,7 +510,7 @@ Proof.
 Qed.
 
 (* ------------------------------------------------------------------ *)
-(* Part 5: the corners outside the domain (listed findings), by witness *)
+(* Part 5: the corner outside the domain (listed finding C09/empty-alias), by witness *)
 
 Definition w_empty : cls := mkC [mkF "x" (Some "") None false] [] false false None.
 Definition w_empty_d : dict := [(KeyS "", 1%Z); (KeyS "x", 2%Z)].
@@ -545,10 +528,3 @@ Lemma empty_alias_reads_not_allowed :
   /\ kmem (KeyS "") (code_accepted w_empty2) = false
   /\ impl_from_dict w_empty2 [(KeyS "", 1%Z)] = Ok (OExtra [KeyS ""]).
 Proof. repeat split; vm_compute; auto. Qed.
-
-Definition w_fieldless : cls := mkC [] [] false true None.
-
-Lemma fieldless_refuted :
-  impl_from_dict w_fieldless [(KeyS "x", 1%Z)] = Ok (OInst [])
-  /\ keymodel w_fieldless [(KeyS "x", 1%Z)] = OExtra [KeyS "x"].
-Proof. split; vm_compute; reflexivity. Qed.
